@@ -411,6 +411,34 @@ pub fn run(prop: &str, tier: &str, replay: Option<&str>) -> i32 {
         });
         rep.add(sec);
     }
+    // keys the back end GENERATES, for every algorithm it can generate for (aws-lc-rs: RSA under each of its three
+    // digests as well): the artefacts they sign verify under the algorithm the key is labelled with
+    #[cfg(feature = "crypto")]
+    {
+        let algs: Vec<Alg> = backend_algs();
+        let n = if thorough { 4 } else { 1 };
+        let cases: Vec<(usize, usize)> = (0..algs.len()).flat_map(|a| (0..n).map(move |i| (a, i))).collect();
+        let sec = Section::new("keys/generated", "KeyPair::generate_for every algorithm of this back end (RSA keys where it generates them): certificate, CSR and CRL signed with the fresh key verify (OpenSSL, ring, aws-lc-rs) under the algorithm identifier they carry, which is the registered one of the requested algorithm").with_deadline(if thorough { 300 } else { 40 });
+        run::sweep_cases(&sec, &cases, &|c| format!("generate_for({}) #{}", algs[c.0].name(), c.1), &|c| {
+            let mut out = Outcome::default();
+            let a = algs[c.0];
+            let Ok(kp) = rcgen::KeyPair::generate_for(rc_alg(a).unwrap()) else { return out };
+            if alg_of(kp.algorithm()) != Some(a) {
+                out.findings.push(Finding::new("ALG-NOT-REGISTERED", "KeyPair::algorithm", format!("generate_for({}) returns a key labelled {:?}", a.name(), kp.algorithm())));
+                return out;
+            }
+            let raw = rcgen::PublicKeyData::der_bytes(&kp).to_vec();
+            let k = RealKey { label: format!("generated {}", a.name()), kp, pubk: KeyPub { alg: a, raw }, log: None };
+            out = judge_cert(&CertState::default(), &k, None, &k);
+            let o2 = judge_csr(&super::c07::CsrCase { st: CertState::default(), attrs: vec![] }, &k, None);
+            out.findings.extend(o2.findings);
+            out.transitions += o2.transitions;
+            out.findings.dedup_by(|a, b| a.sig() == b.sig());
+            out.digest = fnv(a.name().as_bytes());
+            out
+        });
+        rep.add(sec);
+    }
     fault_histories(&mut rep, &zoo);
     run::join_children(&mut rep, children);
     run::finish(rep)
